@@ -42,10 +42,11 @@ PROPS = {
     "C19": dict(
         module="Anonymongo.Props.C19",
         theorems=["Anonymongo.C19_walk", "Anonymongo.C19_line", "Anonymongo.C19_constants", "Anonymongo.redactScalar_idem",
-                  "Anonymongo.C19_bytes", "Anonymongo.C03_reparse", "Anonymongo.parseObj_printObj"],
-        extra_modules=["Anonymongo.Props.C03b"],
+                  "Anonymongo.C19_bytes", "Anonymongo.C03_reparse", "Anonymongo.parseObj_printObj",
+                  "Anonymongo.C19_file", "Anonymongo.C19_file_generic", "Anonymongo.C06_output_lines"],
+        extra_modules=["Anonymongo.Props.C03b", "Anonymongo.Props.C19b"],
         corr=["line", "text", "sweep"],
-        statement="placeholder mode, value-redaction flags only (any of --redactNumbers/--redactBooleans/--redactIPs, any --replacement that is not e-mail shaped, incl. '$...' and empty): redactLine (redactLine L) = redactLine L for every line without duplicate sibling keys; every placeholder classifies as a member of its own class (redactScalar_idem); the regenerated e-mail placeholder is e-mail shaped and the default replacement is not (kernel decide); BYTE level (C19_bytes): for every input line the parser accepts, the emitted line parses (to exactly the redacted tree) and redacting and printing that parse gives the same bytes again",
+        statement="placeholder mode, value-redaction flags only (any of --redactNumbers/--redactBooleans/--redactIPs, any --replacement that is not e-mail shaped, incl. '$...' and empty): redactLine (redactLine L) = redactLine L for every line without duplicate sibling keys; every placeholder classifies as a member of its own class (redactScalar_idem); the regenerated e-mail placeholder is e-mail shaped and the default replacement is not (kernel decide); BYTE level (C19_bytes): for every input line the parser accepts, the emitted line parses (to exactly the redacted tree) and redacting and printing that parse gives the same bytes again; FILE level (C19_file): the output file of a fault-free run of the stream loop, fed back through the loop with the same flags, is reproduced byte for byte and the second run ends without error (the physical lines of the output are exactly the emitted lines: C06_output_lines; each is a fixed point of the line function), provided no OUTPUT line exceeds the reader's 65 535-byte limit",
         partial="selective mode and the pseudonymising flags are covered by the oracle only (the property asks for idempotence 'in default placeholder mode'); that the model parser/printer equal encoding/json + OrderedMap is the text correspondence plus the second pass through the real CLI",
     ),
     "C14": dict(
@@ -125,8 +126,8 @@ PROPS = {
     "C06": dict(
         module="Anonymongo.Props.C06",
         theorems=["Anonymongo.C06_local", "Anonymongo.C06_skip", "Anonymongo.C07_others", "Anonymongo.C06_faultfree", "Anonymongo.C06_crlf", "Anonymongo.C06_final",
-                  "Anonymongo.parseObj_append"],
-        extra_modules=["Anonymongo.Lemmas.ParseExt"],
+                  "Anonymongo.parseObj_append", "Anonymongo.C06_output_lines"],
+        extra_modules=["Anonymongo.Lemmas.ParseExt", "Anonymongo.Props.C19b"],
         corr=["stream", "line", "text"],
         statement="for an arbitrary line function: processLines (A++B) = processLines A ++ processLines B; skipped lines contribute nothing; a fault-free run of the scan loop emits exactly the order-preserving map over the scanned lines; CRLF and LF texts of the same lines scan to the same tokens; the final newline is optional",
         partial="channel independence (file / .gz / stdin x stdout / --outputFile, progress bar) is runtime behaviour of os, gzip and the terminal: established by whole-program runs compared byte for byte with the per-line results, not by a theorem; 'is a JSON object' is the model parser, corresponded with encoding/json",
